@@ -187,9 +187,9 @@ func lexerStage(c *checkCtx) {
 		name string
 		n    int
 	}
-	fams := []fam{{"names", 4}, {"numbers", 4}, {"quotes", 4}, {"comments", 5}}
+	fams := []fam{{"names", 4}, {"numbers", 4}, {"quotes", 4}, {"comments", 5}, {"unicode", 3}}
 	if c.tier == "thorough" {
-		fams = []fam{{"names", 5}, {"numbers", 5}, {"quotes", 5}, {"comments", 6}}
+		fams = []fam{{"names", 5}, {"numbers", 5}, {"quotes", 5}, {"comments", 6}, {"unicode", 4}}
 	}
 	tmpl, err := os.ReadFile(root + "/spec/GenLexer_T.cfg")
 	if err != nil {
